@@ -11,6 +11,8 @@ import Lattigo.Model.EncoderT
     bgv decode  t= g= n= N= qs= scale= batched=0|1 kind=u|i len= rows=<mat> ⇒ Decode values
     bgv embed   t= g= n= N= qs=<moduli of the receiver part> up=0|1 scale= kind=u|i vals=
                                                                             ⇒ canonical rows of EmbedScale | err
+    bgv embedp  t= g= n= N= qs=<Q moduli at the level of the Q part> ps=<P moduli> up=0|1 scale= kind=u|i vals=
+                                                                            ⇒ canonical rows of the P part | err
 -/
 namespace Driver.C07
 open Driver Lattigo Lattigo.EncoderT
@@ -68,6 +70,13 @@ def handleBgv (toks : List String) : Option String :=
     let up ← nat? rest "up"
     let v ← vals? rest
     pure (match embed P P.qs (up == 1) scale v with | some a => showMat a.c | none => "err")
+  | "embedp" :: rest => do
+    let P ← params? rest
+    let ps ← (kv? rest "ps").bind parseVec?
+    let scale ← nat? rest "scale"
+    let up ← nat? rest "up"
+    let v ← vals? rest
+    pure (match embedP P ps (up == 1) scale v with | some a => showMat a.c | none => "err")
   | "decode" :: rest => do
     let P ← params? rest
     let scale ← nat? rest "scale"
